@@ -3,6 +3,8 @@
 From ZV.Common Require Import Base Run.
 From Coq Require Import Sorting.Permutation Sorting.Sorted.
 From ZV.C12 Require Import Spec Model ProofsOrder ProofsSearch ProofsBuild ProofsKasai ProofsAll.
+From ZV.C12 Require Import ModelDict ProofsDictRange ProofsDict ModelEsa ProofsEsa ModelKeyed ProofsKeyed ModelCases.
+From ZV.C12 Require Import ModelSais ProofsSaisClassify ProofsSaisNames ProofsSais ProofsSaisSmall.
 Open Scope nat_scope.
 
 (* the order used by the spec is the textbook one: proper prefix, or smaller at the first difference *)
@@ -143,3 +145,363 @@ Check c12_pipeline :
        (forall i, In i (firstn n (skipn l sa)) <-> occurs t p i) /\
        n = length (filter (occursb t p) (seq 0 (length t)))).
 Print Assumptions c12_pipeline.
+
+(* ================= PA-Zip dictionary matcher (src/compression/dict_zip/dictionary.rs) ================= *)
+
+(* sa_equal_range / sa_equal_range_binary_optimized: on a suffix array, for a rank range whose suffixes
+   share a prefix of length d, the result is exactly the ranks of the range with byte c at depth d *)
+Theorem sa_equal_range_exact :
+  forall t sa lo hi d c p l r,
+    is_sa t sa -> length p = d ->
+    (forall k, lo <= k < hi -> k < length sa -> firstn d (suffix t (nth k sa 0)) = p) ->
+    sa_equal_range t sa lo hi d c = (l, r) ->
+    l <= r /\
+    (forall k, l <= k < r <->
+               (lo <= k < hi /\ k < length sa /\ nth_error (suffix t (nth k sa 0)) d = Some c)).
+Proof. exact sa_equal_range_exact_proof. Qed.
+Check sa_equal_range_exact :
+  forall t sa lo hi d c p l r,
+    is_sa t sa -> length p = d ->
+    (forall k, lo <= k < hi -> k < length sa -> firstn d (suffix t (nth k sa 0)) = p) ->
+    sa_equal_range t sa lo hi d c = (l, r) ->
+    l <= r /\
+    (forall k, l <= k < r <->
+               (lo <= k < hi /\ k < length sa /\ nth_error (suffix t (nth k sa 0)) d = Some c)).
+Print Assumptions sa_equal_range_exact.
+
+(* sa_match_continuation from the full range: depth = length of the longest prefix of the input that
+   occurs in the text, [lo, hi) = exactly the ranks whose suffixes start with it *)
+Theorem sa_match_continuation_longest :
+  forall t sa q lo hi d,
+    is_sa t sa -> sa_match_continuation t sa 0 (length sa) 0 q = (lo, hi, d) ->
+    d <= length q /\ lo <= hi <= length sa /\
+    (forall k, lo <= k < hi <-> (k < length sa /\ is_prefix (firstn d q) (suffix t (nth k sa 0)))) /\
+    (d < length q -> forall k, k < length sa -> ~ is_prefix (firstn (S d) q) (suffix t (nth k sa 0))).
+Proof. exact sa_match_continuation_longest_proof. Qed.
+Check sa_match_continuation_longest :
+  forall t sa q lo hi d,
+    is_sa t sa -> sa_match_continuation t sa 0 (length sa) 0 q = (lo, hi, d) ->
+    d <= length q /\ lo <= hi <= length sa /\
+    (forall k, lo <= k < hi <-> (k < length sa /\ is_prefix (firstn d q) (suffix t (nth k sa 0)))) /\
+    (d < length q -> forall k, k < length sa -> ~ is_prefix (firstn (S d) q) (suffix t (nth k sa 0))).
+Print Assumptions sa_match_continuation_longest.
+
+(* da_match_max_length: for every trie transition function without a transition from the root back to
+   the root, the DFA-cache walk is sa_match_continuation from the full range *)
+Theorem da_match_is_continuation :
+  forall (trans : N -> N -> option N) t sa q,
+    (forall b, trans 0%N b <> Some 0%N) -> q <> [] ->
+    da_match_max_length trans t sa q = sa_match_continuation t sa 0 (length sa) 0 q.
+Proof. exact da_match_is_continuation_proof. Qed.
+Check da_match_is_continuation :
+  forall (trans : N -> N -> option N) t sa q,
+    (forall b, trans 0%N b <> Some 0%N) -> q <> [] ->
+    da_match_max_length trans t sa q = sa_match_continuation t sa 0 (length sa) 0 q.
+Print Assumptions da_match_is_continuation.
+
+Theorem da_match_max_length_longest :
+  forall (trans : N -> N -> option N) t sa q lo hi d,
+    (forall b, trans 0%N b <> Some 0%N) -> q <> [] ->
+    is_sa t sa -> da_match_max_length trans t sa q = (lo, hi, d) ->
+    d <= length q /\ lo <= hi <= length sa /\
+    (forall k, lo <= k < hi <-> (k < length sa /\ is_prefix (firstn d q) (suffix t (nth k sa 0)))) /\
+    (d < length q -> forall k, k < length sa -> ~ is_prefix (firstn (S d) q) (suffix t (nth k sa 0))).
+Proof. exact da_match_max_length_longest_proof. Qed.
+Check da_match_max_length_longest :
+  forall (trans : N -> N -> option N) t sa q lo hi d,
+    (forall b, trans 0%N b <> Some 0%N) -> q <> [] ->
+    is_sa t sa -> da_match_max_length trans t sa q = (lo, hi, d) ->
+    d <= length q /\ lo <= hi <= length sa /\
+    (forall k, lo <= k < hi <-> (k < length sa /\ is_prefix (firstn d q) (suffix t (nth k sa 0)))) /\
+    (d < length q -> forall k, k < length sa -> ~ is_prefix (firstn (S d) q) (suffix t (nth k sa 0))).
+Print Assumptions da_match_max_length_longest.
+
+(* ================= enhanced suffix arrays: LCP / BWT storage ================= *)
+
+(* algorithms::suffix_array::EnhancedSuffixArray::with_lcp + lcp_at: the exact LCP value at every rank,
+   None past the end, for every text (usize storage, no width assumption) *)
+Theorem esa_lcp_at_is_kasai :
+  forall (sais : list N -> list nat) (analyse : list N -> alg) t,
+    (select_algorithm analyse default_config t = SAIS \/ select_algorithm analyse default_config t = Adaptive
+       -> is_sa t (sais t)) ->
+    exists e, esa_with_lcp sais analyse t = Some e /\ is_sa t (esa_sa e) /\
+              forall k, esa_lcp_at e k = nth_error (lcp_spec t (esa_sa e)) k.
+Proof. exact esa_lcp_at_is_kasai_proof. Qed.
+Check esa_lcp_at_is_kasai :
+  forall (sais : list N -> list nat) (analyse : list N -> alg) t,
+    (select_algorithm analyse default_config t = SAIS \/ select_algorithm analyse default_config t = Adaptive
+       -> is_sa t (sais t)) ->
+    exists e, esa_with_lcp sais analyse t = Some e /\ is_sa t (esa_sa e) /\
+              forall k, esa_lcp_at e k = nth_error (lcp_spec t (esa_sa e)) k.
+Print Assumptions esa_lcp_at_is_kasai.
+
+(* ... with_bwt: the BWT induced by the suffix order, a permutation of the text *)
+Theorem esa_bwt_is_bwt :
+  forall (sais : list N -> list nat) (analyse : list N -> alg) t,
+    (select_algorithm analyse default_config t = SAIS \/ select_algorithm analyse default_config t = Adaptive
+       -> is_sa t (sais t)) ->
+    let e := esa_with_bwt sais analyse t in
+    is_sa t (esa_sa e) /\ esa_bwt e = Some (bwt_spec t (esa_sa e)) /\
+    forall b, esa_bwt e = Some b -> Permutation b t.
+Proof. exact esa_bwt_is_bwt_proof. Qed.
+Check esa_bwt_is_bwt :
+  forall (sais : list N -> list nat) (analyse : list N -> alg) t,
+    (select_algorithm analyse default_config t = SAIS \/ select_algorithm analyse default_config t = Adaptive
+       -> is_sa t (sais t)) ->
+    let e := esa_with_bwt sais analyse t in
+    is_sa t (esa_sa e) /\ esa_bwt e = Some (bwt_spec t (esa_sa e)) /\
+    forall b, esa_bwt e = Some b -> Permutation b t.
+Print Assumptions esa_bwt_is_bwt.
+
+(* compression::suffix_array (values stored `as u32`): for every text the constructor accepts - that is
+   every text of at most 2^32 bytes - suffix_at_rank and lcp_at return the suffix array and the exact LCP
+   values (every stored value is below the text length, so the 32-bit cast never truncates) *)
+Theorem cesa_lcp_at_is_kasai :
+  forall (sais : list N -> list nat) t,
+    is_sa t (sais t) -> (N.of_nat (length t) <= 2 ^ 32)%N ->
+    exists e sa, is_sa t sa /\ cesa_build sais true t = Some e /\
+      c_text_len e = length t /\ cesa_len e = length t /\
+      (forall k, cesa_suffix_at_rank e k = nth_error sa k) /\
+      (forall k, cesa_lcp_at e k = nth_error (lcp_spec t sa) k).
+Proof. exact cesa_exact_proof. Qed.
+Check cesa_lcp_at_is_kasai :
+  forall (sais : list N -> list nat) t,
+    is_sa t (sais t) -> (N.of_nat (length t) <= 2 ^ 32)%N ->
+    exists e sa, is_sa t sa /\ cesa_build sais true t = Some e /\
+      c_text_len e = length t /\ cesa_len e = length t /\
+      (forall k, cesa_suffix_at_rank e k = nth_error sa k) /\
+      (forall k, cesa_lcp_at e k = nth_error (lcp_spec t sa) k).
+Print Assumptions cesa_lcp_at_is_kasai.
+
+(* ... and longer texts are refused, never truncated *)
+Theorem cesa_too_long_refused :
+  forall (sais : list N -> list nat) b t,
+    is_sa t (sais t) -> (2 ^ 32 < N.of_nat (length t))%N -> cesa_build sais b t = None.
+Proof. exact cesa_too_long_proof. Qed.
+Check cesa_too_long_refused :
+  forall (sais : list N -> list nat) b t,
+    is_sa t (sais t) -> (2 ^ 32 < N.of_nat (length t))%N -> cesa_build sais b t = None.
+Print Assumptions cesa_too_long_refused.
+
+(* a store of width W reads back unchanged exactly when every value is below 2^W ... *)
+Theorem stored_width_exact_iff :
+  forall W l, map N.to_nat (map (as_uw W) l) = l <-> Forall (fun v => (N.of_nat v < 2 ^ W)%N) l.
+Proof. exact stored_width_exact_iff_proof. Qed.
+Check stored_width_exact_iff :
+  forall W l, map N.to_nat (map (as_uw W) l) = l <-> Forall (fun v => (N.of_nat v < 2 ^ W)%N) l.
+Print Assumptions stored_width_exact_iff.
+
+(* ... so a narrower LCP store is wrong as soon as an LCP value reaches 2^W (witness W = 3, text a^9) *)
+Theorem cesa_narrow_width_refuted :
+  exists W t, let sa := sort_suffixes t in
+    match cesa_build_w (fun _ => sa) W true t with
+    | Some e => exists k, cesa_lcp_at e k <> nth_error (lcp_spec t sa) k
+    | None => False
+    end.
+Proof. exact cesa_narrow_width_refuted_proof. Qed.
+Check cesa_narrow_width_refuted :
+  exists W t, let sa := sort_suffixes t in
+    match cesa_build_w (fun _ => sa) W true t with
+    | Some e => exists k, cesa_lcp_at e k <> nth_error (lcp_spec t sa) k
+    | None => False
+    end.
+Print Assumptions cesa_narrow_width_refuted.
+
+(* ================= comparator shapes of the sort-based constructions ================= *)
+
+(* sort_by with any comparator that is the suffix comparator on the positions of the text *)
+Theorem sort_by_cmp_is_sa :
+  forall cmp t,
+    (forall i j, i < length t -> j < length t -> cmp i j = lex_cmp (suffix t i) (suffix t j)) ->
+    is_sa t (sort_by cmp (length t)).
+Proof. exact sort_by_cmp_is_sa_proof. Qed.
+Check sort_by_cmp_is_sa :
+  forall cmp t,
+    (forall i j, i < length t -> j < length t -> cmp i j = lex_cmp (suffix t i) (suffix t j)) ->
+    is_sa t (sort_by cmp (length t)).
+Print Assumptions sort_by_cmp_is_sa.
+
+(* build with the sort_by closure as a parameter: the closure the code has gives the model of build, and
+   every closure that is the suffix comparator on the text gives the suffix array *)
+Theorem build_by_plain_is_build :
+  forall sais analyse c t, build_by plain_cmp sais analyse c t = build sais analyse c t.
+Proof. exact build_by_plain_is_build_proof. Qed.
+Check build_by_plain_is_build :
+  forall sais analyse c t, build_by plain_cmp sais analyse c t = build sais analyse c t.
+Print Assumptions build_by_plain_is_build.
+
+Theorem build_by_is_sa :
+  forall (cmp : list N -> nat -> nat -> comparison) sais analyse c t,
+    (forall i j, i < length t -> j < length t -> cmp t i j = lex_cmp (suffix t i) (suffix t j)) ->
+    (select_algorithm analyse c t = SAIS \/ select_algorithm analyse c t = Adaptive -> is_sa t (sais t)) ->
+    is_sa t (build_by cmp sais analyse c t).
+Proof. exact build_by_is_sa_proof. Qed.
+Check build_by_is_sa :
+  forall (cmp : list N -> nat -> nat -> comparison) sais analyse c t,
+    (forall i j, i < length t -> j < length t -> cmp t i j = lex_cmp (suffix t i) (suffix t j)) ->
+    (select_algorithm analyse c t = SAIS \/ select_algorithm analyse c t = Adaptive -> is_sa t (sais t)) ->
+    is_sa t (build_by cmp sais analyse c t).
+Print Assumptions build_by_is_sa.
+
+(* "zero-padded K-byte key first, then the remainders" equals the slice order exactly when the two strings
+   are not a pair of different strings that both fit in the key and have the same padded key *)
+Theorem keyed_compare_is_suffix_compare :
+  forall K a b, keyed_cmp K a b = lex_cmp a b <-> ~ (a <> b /\ key_tie K a b).
+Proof. exact keyed_compare_is_suffix_compare_proof. Qed.
+Check keyed_compare_is_suffix_compare :
+  forall K a b, keyed_cmp K a b = lex_cmp a b <-> ~ (a <> b /\ key_tie K a b).
+Print Assumptions keyed_compare_is_suffix_compare.
+
+(* hence the keyed sort is the suffix array when no two suffixes tie, in particular when the text does
+   not end in a zero byte *)
+Theorem keyed_sort_is_sa :
+  forall K t,
+    (forall i j, i < j -> j < length t -> ~ key_tie K (suffix t i) (suffix t j)) ->
+    is_sa t (keyed_sort K t).
+Proof. exact keyed_sort_is_sa_proof. Qed.
+Check keyed_sort_is_sa :
+  forall K t,
+    (forall i j, i < j -> j < length t -> ~ key_tie K (suffix t i) (suffix t j)) ->
+    is_sa t (keyed_sort K t).
+Print Assumptions keyed_sort_is_sa.
+
+Theorem keyed_sort_last_nonzero :
+  forall K t, last t 1%N <> 0%N -> is_sa t (keyed_sort K t).
+Proof. exact keyed_sort_last_nonzero_proof. Qed.
+Check keyed_sort_last_nonzero :
+  forall K t, last t 1%N <> 0%N -> is_sa t (keyed_sort K t).
+Print Assumptions keyed_sort_last_nonzero.
+
+(* ... and wrong for texts ending in NUL bytes: an 8-byte key on "\0\0" *)
+Theorem keyed_compare_refuted :
+  exists K t, ~ is_sa t (keyed_sort K t) /\
+              exists i j, keyed_cmp K (suffix t i) (suffix t j) <> lex_cmp (suffix t i) (suffix t j).
+Proof. exact keyed_compare_refuted_proof. Qed.
+Check keyed_compare_refuted :
+  exists K t, ~ is_sa t (keyed_sort K t) /\
+              exists i j, keyed_cmp K (suffix t i) (suffix t j) <> lex_cmp (suffix t i) (suffix t j).
+Print Assumptions keyed_compare_refuted.
+
+(* ================= SA-IS (sais_construct_with_depth and its helpers), executable model in ModelSais.v ================= *)
+
+(* classify_suffixes / find_lms_suffixes: S-type = smaller than the next suffix (the last suffix is L: it is
+   followed by the empty suffix, the virtual sentinel), LMS = S-type with an L-type predecessor; the LMS
+   list is exactly those positions, in text order *)
+Theorem sais_classify_correct :
+  forall t,
+    let types := classify t in
+    let lms := lms_positions (lms_flags types) in
+    length types = length t /\
+    (forall i, i < length t -> (nth i types false = true <-> is_S t i)) /\
+    (forall p, nth p (lms_flags types) false = true <-> is_lms_pos t p) /\
+    (forall p, In p lms <-> is_lms_pos t p) /\
+    StronglySorted lt lms.
+Proof. exact sais_classify_correct_proof. Qed.
+Check sais_classify_correct :
+  forall t,
+    let types := classify t in
+    let lms := lms_positions (lms_flags types) in
+    length types = length t /\
+    (forall i, i < length t -> (nth i types false = true <-> is_S t i)) /\
+    (forall p, nth p (lms_flags types) false = true <-> is_lms_pos t p) /\
+    (forall p, In p lms <-> is_lms_pos t p) /\
+    StronglySorted lt lms.
+Print Assumptions sais_classify_correct.
+
+(* name_lms_substrings: along an LMS list sorted by a preorder whose equivalence is the code's
+   are_lms_substrings_equal, the names written into the table never decrease, are equal exactly for equal
+   LMS substrings, and are all below num_names *)
+Theorem sais_names_order_lms_substrings :
+  forall (le : nat -> nat -> Prop) text flags lms lms_sa names num,
+    (forall x y z, le x y -> le y z -> le x z) ->
+    (forall x y, In x lms_sa -> In y lms_sa -> (lms_equal text flags x y = true <-> le x y /\ le y x)) ->
+    StronglySorted le lms_sa -> NoDup lms -> Permutation lms_sa lms ->
+    name_lms text flags lms lms_sa = Some (names, num) ->
+    ForallOrdPairs (fun p p' => name_of lms names p <= name_of lms names p' /\
+                                (name_of lms names p = name_of lms names p' <-> lms_equal text flags p p' = true))
+                   lms_sa /\
+    (forall p, In p lms -> name_of lms names p < num).
+Proof. exact sais_names_order_lms_substrings_proof. Qed.
+Check sais_names_order_lms_substrings :
+  forall (le : nat -> nat -> Prop) text flags lms lms_sa names num,
+    (forall x y z, le x y -> le y z -> le x z) ->
+    (forall x y, In x lms_sa -> In y lms_sa -> (lms_equal text flags x y = true <-> le x y /\ le y x)) ->
+    StronglySorted le lms_sa -> NoDup lms -> Permutation lms_sa lms ->
+    name_lms text flags lms lms_sa = Some (names, num) ->
+    ForallOrdPairs (fun p p' => name_of lms names p <= name_of lms names p' /\
+                                (name_of lms names p = name_of lms names p' <-> lms_equal text flags p p' = true))
+                   lms_sa /\
+    (forall p, In p lms -> name_of lms names p < num).
+Print Assumptions sais_names_order_lms_substrings.
+
+(* the recursion condition `num_names < lms_suffixes.len()` holds exactly when two LMS substrings received
+   the same name (so the shortcut "names unique: the first-pass order is final" is taken only then) *)
+Theorem sais_recursion_needed_iff_duplicate_names :
+  forall text flags lms lms_sa names num,
+    NoDup lms -> Permutation lms_sa lms -> name_lms text flags lms lms_sa = Some (names, num) ->
+    num <= length lms /\ (num < length lms <-> ~ NoDup names).
+Proof. exact sais_recursion_needed_iff_duplicate_names_proof. Qed.
+Check sais_recursion_needed_iff_duplicate_names :
+  forall text flags lms lms_sa names num,
+    NoDup lms -> Permutation lms_sa lms -> name_lms text flags lms lms_sa = Some (names, num) ->
+    num <= length lms /\ (num < length lms <-> ~ NoDup names).
+Print Assumptions sais_recursion_needed_iff_duplicate_names.
+
+(* SA-IS returns the suffix array of every byte string up to the size guard, for both alphabet settings and
+   through every recursion level and the depth fallback - GIVEN two facts about one round of induced
+   sorting (final_ok, first_ok: hypotheses, not proved; see ProofsSais.v) *)
+Theorem sais_is_sa_partial :
+  final_ok -> first_ok ->
+  forall opt t, (forall c, In c t -> (c < 256)%N) -> (N.of_nat (length t) <= MAX_TEXT_SIZE)%N ->
+    exists sa, sais opt t = Some sa /\ is_sa t sa.
+Proof. exact sais_is_sa_partial_proof. Qed.
+Check sais_is_sa_partial :
+  final_ok -> first_ok ->
+  forall opt t, (forall c, In c t -> (c < 256)%N) -> (N.of_nat (length t) <= MAX_TEXT_SIZE)%N ->
+    exists sa, sais opt t = Some sa /\ is_sa t sa.
+Print Assumptions sais_is_sa_partial.
+
+(* the same for every recursion level (any alphabet bound, any remaining depth) *)
+Theorem sais_go_is_sa_partial :
+  final_ok -> first_ok ->
+  forall fuel t alpha,
+    (forall c, In c t -> N.to_nat c < alpha) -> (N.of_nat (length t) <= MAX_TEXT_SIZE)%N ->
+    exists sa, sais_go fuel t alpha = Some sa /\ is_sa t sa.
+Proof. exact sais_go_is_sa. Qed.
+Check sais_go_is_sa_partial :
+  final_ok -> first_ok ->
+  forall fuel t alpha,
+    (forall c, In c t -> N.to_nat c < alpha) -> (N.of_nat (length t) <= MAX_TEXT_SIZE)%N ->
+    exists sa, sais_go fuel t alpha = Some sa /\ is_sa t sa.
+Print Assumptions sais_go_is_sa_partial.
+
+(* SuffixArrayBuilder::build with the SA-IS model in place of the parameter: all five algorithm values *)
+Theorem build_with_sais_model_is_sa :
+  final_ok -> first_ok ->
+  forall opt (analyse : list N -> alg) c t,
+    (forall x, In x t -> (x < 256)%N) -> (N.of_nat (length t) <= MAX_TEXT_SIZE)%N ->
+    is_sa t (build (sais_fn opt) analyse c t).
+Proof. exact build_with_sais_model_is_sa_proof. Qed.
+Check build_with_sais_model_is_sa :
+  final_ok -> first_ok ->
+  forall opt (analyse : list N -> alg) c t,
+    (forall x, In x t -> (x < 256)%N) -> (N.of_nat (length t) <= MAX_TEXT_SIZE)%N ->
+    is_sa t (build (sais_fn opt) analyse c t).
+Print Assumptions build_with_sais_model_is_sa.
+
+Theorem sais_too_long_refused :
+  forall opt t, (MAX_TEXT_SIZE < N.of_nat (length t))%N -> sais opt t = None.
+Proof. exact sais_too_long_proof. Qed.
+Check sais_too_long_refused :
+  forall opt t, (MAX_TEXT_SIZE < N.of_nat (length t))%N -> sais opt t = None.
+Print Assumptions sais_too_long_refused.
+
+(* the two hypotheses, evaluated on a complete small domain (the bound is part of the statement) *)
+Theorem induced_sort_lemmas_small :
+  forall t, In t (words_upto [0; 1]%N 12) \/ In t (words_upto [0; 1; 2]%N 8) ->
+    final_okb 3 t = true /\ first_okb 3 t = true.
+Proof. exact induced_sort_lemmas_small_proof. Qed.
+Check induced_sort_lemmas_small :
+  forall t, In t (words_upto [0; 1]%N 12) \/ In t (words_upto [0; 1; 2]%N 8) ->
+    final_okb 3 t = true /\ first_okb 3 t = true.
+Print Assumptions induced_sort_lemmas_small.
